@@ -778,18 +778,31 @@ func runCrash(c CrashCase, child string) (res vt.Result, fail *vt.Fail) {
 	// and the process lives on: the operation may report the error, but the file is
 	// the old or the new complete document, and the new one if it reported success
 	faulted := 0
+	type variant struct {
+		k          int
+		retried    bool
+		persistent bool
+	}
+	var variants []variant
 	for k, pt := range pts {
 		if !crash.Faultable(pt.Syscall) {
 			continue
 		}
-		errno := []string{"EIO", "ENOSPC"}[k%2]
-		restore()
 		// every other faulted run is followed by the caller's retry of the same call
-		retried := k%4 >= 2
+		variants = append(variants, variant{k: k, retried: k%4 >= 2})
+		if pt.Syscall == "write" || pt.Syscall == "pwrite64" {
+			// a full disk does not heal: this call and every later one of its kind fails
+			variants = append(variants, variant{k: k, persistent: true})
+		}
+	}
+	for _, v := range variants {
+		k, pt, retried, persistent := v.k, pts[v.k], v.retried, v.persistent
+		errno := []string{"EIO", "ENOSPC"}[k%2]
+		if persistent {
+			errno = "ENOSPC"
+		}
+		restore()
 		sc.Retry = retried
-		// a full disk does not heal: for write(2) the fault also comes in the form
-		// "this call and every later one of its kind fails"
-		persistent := pt.Syscall == "write" && !retried
 		exit, err := r.RunFaultedFrom(sc, pt, errno, persistent)
 		sc.Retry = false
 		if err != nil {
@@ -798,7 +811,7 @@ func runCrash(c CrashCase, child string) (res vt.Result, fail *vt.Fail) {
 		}
 		faulted++
 		res.Evals++
-		res.SubNonTrivial = append(res.SubNonTrivial, fmt.Sprintf("%s#fault%d", vt.MustJSON(c), k))
+		res.SubNonTrivial = append(res.SubNonTrivial, fmt.Sprintf("%s#fault%d/%v/%v", vt.MustJSON(c), k, retried, persistent))
 		got, rerr := os.ReadFile(path)
 		switch {
 		case rerr != nil && old == nil && exit != 0:
